@@ -19,7 +19,12 @@ R = Registry(
         "connection is obtained; refresh / merge(load) / merge_result autoflush before loading; Session._autoflush "
         "flushes iff autoflush is on and no flush is running, annotating statement errors; the _autoflush load option "
         "defaults to True and is switched off only by the enumerated owners; primary-key and lazy loads go through "
-        "session.execute()."
+        "session.execute(); every execution exit of Session._execute_internal (conn.execute / conn.scalar / "
+        "orm_execute_statement) is dominated by the autoflush of its world (Core / ORM); every site that runs a statement "
+        "with autoflush switched off does so under a condition that implies a whitelisted reason (pending parent, "
+        "NO_AUTOFLUSH passive flag, caller's no_autoflush request, autoflush just performed); Session.autoflush is "
+        "switched off only temporarily (saved, restored on every exit); loaders that key their SELECT on the state of an "
+        "in-session instance autoflush before reading that state."
     ),
     not_decided="equivalence of query results with an explicit flush; events that re-enter the session during flush.",
 )
@@ -51,8 +56,9 @@ def _pre_exec_impls(ctx):
 
 @R.rule("C47-R1", floor=15, template="T-SIBLING/T-PATH",
         desc="every concrete orm_pre_session_exec honours the `autoflush` option and autoflushes exactly under "
-             "`not is_pre_event and opts._autoflush`; _execute_internal autoflushes before obtaining a connection "
-             "(Core: unconditionally; ORM: real pre-exec call); refresh/merge/merge_result autoflush before loading")
+             "`not is_pre_event and opts._autoflush`; in _execute_internal every execution exit (conn.execute, conn.scalar, "
+             "orm_execute_statement) is dominated by self._autoflush() (Core: unconditionally) / the real pre-exec call "
+             "(ORM, also before the connection is obtained); refresh/merge/merge_result autoflush before loading")
 def r1(ctx):
     impls = _pre_exec_impls(ctx)
     ctx.require(len(impls) >= 4, f"only {len(impls)} concrete orm_pre_session_exec implementations found")
